@@ -449,7 +449,7 @@ theorem complete_clears {op : Op} (hc : op.complete = true) (hw : op.wf = true) 
     · simp only [RebaseFacts.wf, Bool.and_eq_true, Bool.not_eq_true'] at hw
       simp [Op.clears, hw.2]
     · simp [Op.clears, hw]
-  | _ => simp_all [Op.complete, Op.clears, Op.wf, RebaseFacts.wf]
+  | _ => simp_all [Op.complete, Op.clears, Op.wf]
 
 /-- `good` follows from per-operation facts alone for sequences of complete commands: each is well-formed and
     inside the agreeing region. (The side-state invariant is carried by `side_state_cleared_partial`.) -/
